@@ -455,6 +455,31 @@ theorem C10_forward_main (me : Bytes) (ups : List Bytes) (down : Bytes) (ct cl :
     List.contains_iff_mem]
   exact ⟨hu.1, hd.1⟩
 
+theorem copyWrites_flatten (rs : List LRead) : (copyWrites rs).flatten = readData rs := by
+  induction rs with
+  | nil => rfl
+  | cons r rs ih =>
+    simp only [copyWrites, readData, List.flatten_append]
+    cases hr : r.err.isSome <;> cases hd : r.data.isEmpty <;> simp_all
+
+/-- **Forwarding, readers that report the end with their last bytes**: the local connection is ANY script
+of reads — each returning some bytes and possibly, together with them, io.EOF or another error (as
+`iotest.DataErrReader`, gzip and QUIC streams do) — and the stream side may report its end-of-stream with
+its last bytes as well.  The peer still receives EVERY byte the local reader handed out, up to and
+including those of the read that carried the EOF/error, followed by end-of-stream after the half-close;
+the application receives every byte of the answer. -/
+theorem C10_forward_reads (me : Bytes) (upReads : List LRead) (down : Bytes) (ct cl re : Bool) :
+    holdsFw (readData upReads) down ct cl (runForwardR me upReads down ct cl re) = true := by
+  have h := C10_forward_main me (copyWrites upReads) down ct cl
+  rw [copyWrites_flatten] at h
+  simp only [holdsFw, Bool.and_eq_true, beq_iff_eq] at h ⊢
+  obtain ⟨⟨⟨⟨h1, h2⟩, h3⟩, h4⟩, h5⟩ := h
+  have hd : (copyWrites [⟨(runForward me (copyWrites upReads) down ct cl).down, if re then some .eof else none⟩]).flatten =
+      (runForward me (copyWrites upReads) down ct cl).down := by
+    rw [copyWrites_flatten]; cases re <;> simp [readData]
+  simp only [runForwardR, hd]
+  exact ⟨⟨⟨⟨h1, h2⟩, h3⟩, h4⟩, h5⟩
+
 /-- The chunking function the driver uses is a chunking (so `C10_stream_main` covers every case line). -/
 theorem C10_chunkBy_flatten (ns : List Nat) (bs : Bytes) : (Drv.chunkBy ns bs).flatten = bs := by
   induction ns generalizing bs with
@@ -503,6 +528,12 @@ example : (⟨tunnelIDFromString idA, crossnode.FrameTypeData, [1, 2, 3]⟩ : Fr
 
 /-- The forwarding model reaches `done` and satisfies `holdsFw` on a concrete run (a test). -/
 example : holdsFw [1, 2, 3] [4, 5] true true (runForward idA [[1], [2, 3]] [4, 5] true true) = true := by decide +kernel
+
+/-- A local reader that returns its last two bytes together with io.EOF: all five bytes arrive (a test). -/
+example :
+    holdsFw [1, 2, 3, 4, 5] [9] false false
+      (runForwardR idA [⟨[1, 2, 3], none⟩, ⟨[4, 5], some .eof⟩, ⟨[7], none⟩] [9] false false true) = true := by
+  decide +kernel
 
 /-- A hostile header (length `0xFFFFFFFF`) is refused with only the header allocated (a test). -/
 example :
